@@ -532,7 +532,7 @@ def check_C07(tier, replay):
                                        events=False, devs=devs, taps=taps, probes=True, fields=True,
                                        tag={"judge": [p for p in range(n) if p != c], "triples": False, "c": c, "what": sc["what"]}))
     out = vlib.run_pt("engine", jobs, wd, name="c07", timeout=7200)
-    res = vlib.tlc_trace("Mon_C07", vlib.MON_CFG, out, wd, depth_first=False, timeout=3600)
+    res = vlib.tlc_trace_chunked("Mon_C07", vlib.MON_CFG, out, wd, depth_first=False, timeout=3600)
     jb = {j["id"]: j for j in jobs}
     sym = ashare_model(v, tier, wd, jobs, out) if not replay else {}
     pm = adv.pre_model(v, tier, wd, "C07", jobs, out)[0] if not replay else {}
